@@ -26,7 +26,7 @@ def sh(cmd, **kw):
 
 
 def main():
-  src, prop, name = sys.argv[1], sys.argv[2], sys.argv[3]
+  src, prop, name = os.path.abspath(sys.argv[1]), sys.argv[2], sys.argv[3]
   use_repo = '--repo' in sys.argv
   extra_props = [a for a in sys.argv[4:] if a.startswith('C')]
   patch = os.path.join(src, 'patch.diff')
@@ -41,7 +41,7 @@ def main():
     tmpdemo = os.path.join(wt, '_demo.py')
     shutil.copy(demo, tmpdemo)
     import re
-    text = re.sub(r'/tmp/seed_C\d\d', wt, open(tmpdemo).read())
+    text = re.sub(r'/tmp/seed\d?_C\d\d', wt, open(tmpdemo).read())
     open(tmpdemo, 'w').write(text)
     rc0, out0 = sh(['/venv/bin/python', tmpdemo], cwd=wt, timeout=300)
     meta['demo_without_change_rc'] = rc0
@@ -86,7 +86,7 @@ def finish(meta, src, name):
   d = os.path.join(HERE, 'seeded', name)
   os.makedirs(d, exist_ok=True)
   for f in ('patch.diff', 'demo.py', 'notes.md'):
-    if os.path.exists(os.path.join(src, f)):
+    if os.path.exists(os.path.join(src, f)) and os.path.abspath(src) != os.path.abspath(d):
       shutil.copy(os.path.join(src, f), os.path.join(d, f))
   notes = os.path.join(src, 'notes.md')
   if os.path.exists(notes):
